@@ -33,6 +33,11 @@ type Request struct {
 	Strategy []int  `json:"strategy,omitempty"` // nil = CoinSelectionLargest, else preference order of the state's coins
 	Select   []int  `json:"select,omitempty"`   // explicit input selection (indexes of the state's coins)
 	DryRun   bool   `json:"dry_run,omitempty"`  //
+	// Resync, when non-nil, makes the wallet resynchronise BEFORE this
+	// request: one rebroadcast answer ("accept" | "mempool") per
+	// transaction that is still unconfirmed at that moment.
+	Resync     []string `json:"resync,omitempty"`
+	ResyncKind string   `json:"resync_kind,omitempty"` // rescan | restart
 }
 
 func (r *Request) entryName() string {
@@ -59,7 +64,11 @@ func (r *Request) String() string {
 	if r.DryRun {
 		s += " dryrun"
 	}
-	return s + ")"
+	s += ")"
+	if r.Resync != nil {
+		s = fmt.Sprintf("resync[%s, rebroadcast answers %v] then %s", r.ResyncKind, r.Resync, s)
+	}
+	return s
 }
 
 // permStrategy is a CoinSelectionStrategy that arranges whatever the wallet
@@ -131,6 +140,9 @@ func (w *world) exec(r *Request, keep bool, st *stats) (fs []finding) {
 			key += "(sequence)"
 		}
 		defer func() { st.nsByEntry[key] += int64(time.Since(t0)) }()
+	}
+	if r.Resync != nil {
+		w.resync(r.ResyncKind, r.Resync)
 	}
 	var scopePtr *waddrmgr.KeyScope
 	if r.Scope >= 0 {
